@@ -294,6 +294,9 @@ def _address_hashed_components(hf: ast.AST):
             t = src(e)
             if (isinstance(e, ast.Call) and call_name(e) == "type" and len(e.args) == 1) or t.endswith(".__class__") or t in ("self.eval_fun", "self.evaluate"):
                 out.append(t)
+            # raw Z3 handles: `.ast` / `.as_ast()` / `.ctx.ref()` are ctypes pointers, `.value` of one is the address of the native node
+            elif t.endswith(".ast.value") or t.endswith(".ast") or t.endswith(".as_ast()") or t.endswith(".as_ast().value") or ".ctx.ref()" in t:
+                out.append(f"{t} (address of a native Z3 node)")
     return out
 
 
